@@ -352,7 +352,22 @@ func (tb *LTable) ForEach(cb func(LValue, LValue)) {
 	}
 }
 
+// isNextKey reports whether a traversal can go on behind key: nil, a position of the array part (also one
+// behind its end, the array may have been shortened meanwhile) or a key of the hash part. A key stays in the
+// key list when its field is cleared, so clearing fields during a traversal is fine.
+func (tb *LTable) isNextKey(key LValue) bool {
+	if key == LNil {
+		return true
+	}
+	if kv, ok := key.(LNumber); ok && isArrayKey(kv) {
+		return true
+	}
+	_, ok := tb.k2i[key]
+	return ok
+}
+
 // This function is equivalent to lua_next ( http://www.lua.org/manual/5.1/manual.html#lua_next ).
+// A key that this table never had ends the traversal; LState.Next raises an error for it.
 func (tb *LTable) Next(key LValue) (LValue, LValue) {
 	init := false
 	if key == LNil {
@@ -385,6 +400,9 @@ func (tb *LTable) Next(key LValue) (LValue, LValue) {
 		}
 	}
 
+	if !tb.isNextKey(key) {
+		return LNil, LNil
+	}
 	for i := tb.k2i[key] + 1; i < len(tb.keys); i++ {
 		key := tb.keys[i]
 		if v := tb.RawGetH(key); v != LNil {
